@@ -58,6 +58,9 @@ def result_ok(res, want):
     return res == want
 
 
+TAIL_SLAVE = 77
+
+
 def st1_obs(c):
     """(service invocations, reply frames) observed at the server stage; for the serial twin the pipelined
     predecessor and its reply are taken off (their absence is reported as such)"""
@@ -80,7 +83,15 @@ def st1_obs(c):
             w = "<predecessor's reply lost>" + w
         return calls, ([w] if w else [])
     toks = r.split(",")
-    return [t for t in toks if t.startswith("C:")], [t[2:] for t in toks if t.startswith("W:")]
+    calls = [t for t in toks if t.startswith("C:")]
+    if c.meta.get("tail"):
+        # the request under test was followed, in the same read, by a request the service declines and a fragment of a third
+        tailcall = "C:%d:RC:7:1" % TAIL_SLAVE
+        if calls[-1:] == [tailcall]:
+            calls = calls[:-1]
+        else:
+            calls = calls + ["<the declined follower was not delivered>"]
+    return calls, [t[2:] for t in toks if t.startswith("W:")]
 
 
 class E2E(Prop):
@@ -195,6 +206,12 @@ class E2E(Prop):
                 chunkings = list(mb.all_compositions(w)) if (m["allcomp"] and len(w) <= 11) else mb.chunkings(w, rng, 2) + [[w]]
                 for parts in chunkings:
                     out.append(Case("SRV %s %s - - %s" % (m["proto"], mb.rscript(parts), m["svc"]), dict(m, stage=1, frame=w.hex(), nchunks=len(parts))))
+                # ... and followed IN THE SAME READ by a request the service declines and by the first bytes of a third request:
+                # the request is still handed over once and its reply is still written (before the connection goes idle)
+                if rng.random() < 0.15 and canon_req(mb.parse_req(m["req"])) is not None:
+                    follower = cligen.frame(m["proto"], 0x7777, TAIL_SLAVE, b"\x01\x00\x07\x00\x01")
+                    frag = cligen.frame(m["proto"], 0x7778, TAIL_SLAVE, b"\x03\x00\x00\x00\x01")[:3]
+                    out.append(Case("SRV %s %s - - %s,n" % (m["proto"], mb.rscript([w + follower + frag]), m["svc"]), dict(m, stage=1, frame=w.hex(), nchunks=1, tail=True)))
                 # the serial RTU server on a pty, the frame pipelined behind an answered request
                 if m["proto"] == "rtu" and rng.random() < (0.12 if tier == "quick" else 0.3):
                     prev = mb.rtu_frame(PREV_SLAVE, mb.spec_req_pdu(PREV_REQ))
@@ -212,7 +229,7 @@ class E2E(Prop):
                 if m.get("nchunks") != 1 and not m["allcomp"]:
                     pass
                 ws = [t[2:] for t in (c.impl or "").split(",") if t.startswith("W:")]
-                if len(ws) != 1 or m.get("ser"):
+                if len(ws) != 1 or m.get("ser") or m.get("tail"):
                     continue
                 if m.get("done2"):
                     continue
